@@ -100,3 +100,7 @@ class BreakSig(Exception):
 
 class ContinueSig(Exception):
     pass
+
+
+class KwargsV(dict):
+    """The value of a ``**kwargs`` parameter: a concrete mapping of keyword names to values."""
